@@ -96,11 +96,17 @@ func TestC13_NodeSign(t *testing.T) {
 		byWallet[c.wlt] = append(byWallet[c.wlt], len(cands))
 		cands = append(cands, c)
 	}
+	// only wallets that own something spendable in the template can be asked to sign
+	var usable []string
 	for _, id := range walletIDs {
-		if len(byWallet[id]) == 0 {
-			setupFailed(t, "wallet %s owns no spendable output in the node template%v", id, "")
+		if len(byWallet[id]) > 0 {
+			usable = append(usable, id)
 		}
 	}
+	if len(usable) < 3 {
+		setupFailed(t, "only %d wallets own a spendable output in the node template", len(usable))
+	}
+	walletIDs = usable
 	hx.Check(t, "C13", 300, 16000, func(t *rapid.T) {
 		wid := rapid.SampledFrom(walletIDs).Draw(t, "wallet")
 		nIn := rapid.IntRange(1, 4).Draw(t, "nin")
